@@ -165,9 +165,9 @@ def _expand(call, target_kind, target, helper, is_method):
     return pre + new
 
 
-def inlined(module, func, depth=2, tests=False):
+def inlined(module, func, depth=2, tests=False, exclude=()):
     """module: sa.core.Module.  Returns (new function node, names of helpers that were inlined).
-    tests=True also expands predicate helpers called as the whole test of an `if`."""
+    tests=True also expands predicate helpers called as the whole test of an `if`; helpers named in `exclude` are kept as calls."""
     cls = getattr(func, "_parent", None)
     while cls is not None and not isinstance(cls, ast.ClassDef):
         cls = getattr(cls, "_parent", None)
@@ -181,6 +181,8 @@ def inlined(module, func, depth=2, tests=False):
 
         def resolve(call):
             f = call.func
+            if (isinstance(f, ast.Attribute) and f.attr in exclude) or (isinstance(f, ast.Name) and f.id in exclude):
+                return None, False
             if isinstance(f, ast.Attribute) and isinstance(f.value, ast.Name) and (f.value.id in ("self", "cls") or (cls is not None and f.value.id == cls.name)):
                 h = methods.get(f.attr)
                 if h is not None and h.name != func.name and h.name.startswith("_") and not h.name.startswith("__") and _simple_helper(h):
